@@ -661,7 +661,7 @@ func (w *world) doOp(p op) {
 			if err := e.WriteSnapshot(); err != nil {
 				r.Probe("snapshot_errors")
 			} else {
-				r.Probe("explicit_snapshots")
+				r.Probe("probe_explicit_snapshots")
 			}
 		}
 	case "full":
@@ -1107,10 +1107,13 @@ func (w *world) checkTypes(pre, post map[[2]int]int, when string) {
 	}
 }
 
-// checkAckedSchema (C10, any number of clients): a field used by a write that was acknowledged before the cut,
-// with no drop of its measurement possibly in effect between that acknowledgement and the cut, must be
-// recorded with its type after the restart ("the recorded field types survive restarts, including unclean ones").
+// checkAckedSchema (C10, any number of clients): if, as of the cut, some point of a measurement field is
+// definitely live (its write was acknowledged before the cut and no delete or measurement drop that began before
+// the cut covers it), the field must be recorded with its type after the restart ("the recorded field types
+// survive restarts, including unclean ones").  A field all of whose points may have been deleted is not judged:
+// removing the last series of a measurement legitimately removes its field schema.
 func (w *world) checkAckedSchema(im image) {
+	v := model.View{H: w.h, RInv: model.Inf - 1, RRet: model.Inf - 1, AsOf: im.cutSeq}
 	var keys []model.SF
 	for k := range w.h.Cells {
 		keys = append(keys, k)
@@ -1124,27 +1127,30 @@ func (w *world) checkAckedSchema(im image) {
 	done := map[[2]int]bool{}
 	for _, k := range keys {
 		m := k.Series / nTagSets
-		if done[[2]int{m, k.Field}] {
-			continue
-		}
-		var last *model.WEv
-		for _, ws := range w.h.Cells[k] {
-			for _, e := range ws {
-				if !e.Failed && e.Ret < im.cutSeq && (last == nil || e.Ret > last.Ret) {
-					last = e
-				}
-			}
-		}
-		if last == nil || w.droppedBetween(m, last.Ret, im.cutSeq) {
+		if done[[2]int{m, k.Field}] || v.LiveCount(k.Series, k.Field) == 0 {
 			continue
 		}
 		want := influxql.Unknown
 		if k.Field < nFields {
 			want = fieldTypes[k.Field]
-		} else if y, ok := w.idType[last.ID]; ok {
-			want = []influxql.DataType{influxql.Unknown, influxql.Float, influxql.Integer, influxql.String, influxql.Unsigned}[y]
 		} else {
-			continue
+			// a typed field (g<i>): the type of the last acknowledged live write
+			var last *model.WEv
+			for _, ws := range w.h.Cells[k] {
+				for _, e := range ws {
+					if !e.Failed && e.Ret < im.cutSeq && (last == nil || e.Ret > last.Ret) {
+						last = e
+					}
+				}
+			}
+			if last == nil {
+				continue
+			}
+			y, ok := w.idType[last.ID]
+			if !ok {
+				continue
+			}
+			want = []influxql.DataType{influxql.Unknown, influxql.Float, influxql.Integer, influxql.String, influxql.Unsigned}[y]
 		}
 		done[[2]int{m, k.Field}] = true
 		mf := w.sh.MeasurementFields([]byte(measName(m)))
@@ -1153,11 +1159,11 @@ func (w *world) checkAckedSchema(im image) {
 			f = mf.Field(fieldName(k.Field))
 		}
 		if f == nil {
-			w.r.Violate("C10:schema-type-lost", "schema-type-lost:acked-write:"+im.kind, "after the crash at [%s] the shard has no recorded type for field %s of %s although write #%d using it was acknowledged at %d, before the cut at %d, and the measurement was not dropped since", im.ev, fieldName(k.Field), measName(m), last.ID, last.Ret, im.cutSeq)
+			w.r.Violate("C10:schema-type-lost", "schema-type-lost:acked-write:"+im.kind, "after the crash at [%s] the shard has no recorded type for field %s of %s although series %d still holds points of it whose writes were acknowledged before the cut at %d and that no delete begun before the cut covers", im.ev, fieldName(k.Field), measName(m), k.Series, im.cutSeq)
 			return
 		}
 		if f.Type != want {
-			w.r.Violate("C10:schema-type-changed", "schema-type-changed:acked-write:"+im.kind, "after the crash at [%s] field %s of %s is recorded as %s; write #%d acknowledged before the cut stored it as %s", im.ev, fieldName(k.Field), measName(m), f.Type, last.ID, want)
+			w.r.Violate("C10:schema-type-changed", "schema-type-changed:acked-write:"+im.kind, "after the crash at [%s] field %s of %s is recorded as %s; the live acknowledged writes stored it as %s", im.ev, fieldName(k.Field), measName(m), f.Type, want)
 			return
 		}
 	}
@@ -1215,7 +1221,11 @@ func (w *world) read(s, f int, min, max int64, asc bool, asOf uint64, who string
 		sig := w.context(class, asOf)
 		if e := w.engine(); e != nil && (class == "stale" || class == "order") {
 			key := tsm1.SeriesFieldKeyBytes(string(models.MakeKey([]byte(measName(s/nTagSets)), seriesTags(s))), fieldName(f))
-			sig += cycleTag(e.FileStore.Files(), key, asc)
+			seek := min
+			if !asc {
+				seek = max
+			}
+			sig += cycleTag(e.FileStore.Files(), key, seek, asc)
 		}
 		r.Violate(prop+":"+class, sig, "%s read series %d (%s %v) field %s [%d..%d] asc=%v at [%d,%d] returned %d points %v: %s", who, s, measName(s/nTagSets), seriesTags(s), fieldName(f), min, max, asc, inv, ret, len(got), w.fieldsOf(s/nTagSets), detail)
 		return false
